@@ -335,7 +335,11 @@ func (s *muxerStream) handleMediaPlaylist(w http.ResponseWriter, r *http.Request
 						return nil
 					}
 
-					if s.hasContent() && s.hasPart(msnint, partint) {
+					// without _HLS_part, the request is for the whole segment:
+					// hold it until the segment is complete
+					if s.hasContent() &&
+						((part == "" && msnint < s.nextSegmentID) ||
+							(part != "" && s.hasPart(msnint, partint))) {
 						break
 					}
 
